@@ -43,6 +43,8 @@ type c11Scope struct {
 	id     ident
 	sc     tally.Scope
 	closed bool
+	prog   dprog
+	ids    []ident
 }
 
 // c11Check compares one snapshot with the reference tally.
@@ -257,7 +259,7 @@ func c11History(c *mon.Ctx, r *mon.Rand) {
 	for _, p := range progs {
 		ids, _ := rc.trace(p)
 		scs := p.clone().apply(ts)
-		scopes = append(scopes, &c11Scope{id: ids[len(ids)-1], sc: scs[len(scs)-1]})
+		scopes = append(scopes, &c11Scope{id: ids[len(ids)-1], sc: scs[len(scs)-1], prog: p, ids: ids})
 	}
 	ref := map[string]*c11Metric{}
 	var ops []string
@@ -394,6 +396,28 @@ func c11History(c *mon.Ctx, r *mon.Rand) {
 						s.closed = true
 						ops = append(ops, fmt.Sprintf("close subscope %q %v", s.id.Prefix, s.id.Tags))
 						c.Event("subscopes-closed", 1)
+						// half of the time the same prefix and tags are derived again from the
+						// test scope (unless the way there leads through a closed scope, whose
+						// children are inert): a test scope hands the closed scope out again, with
+						// everything recorded before the Close still in later snapshots
+						closedKeys := map[string]bool{}
+						for _, x := range scopes {
+							if x.closed {
+								closedKeys[x.id.key()] = true
+							}
+						}
+						through := false
+						for _, id := range s.ids[:len(s.ids)-1] {
+							if closedKeys[id.key()] {
+								through = true
+							}
+						}
+						if !through && r.Bool() {
+							scs := s.prog.clone().apply(ts)
+							s.sc = scs[len(scs)-1]
+							ops = append(ops, "derive it again")
+							c.Event("closed-subscopes-derived-again", 1)
+						}
 					}
 				}
 			}
